@@ -39,7 +39,11 @@ def check_c08(prop, tier, seed):
                  dict(kind='elongated', n_dim=4, n=120, seed=s + 7, cls='Ellipsoid', n_split=3),
                  dict(kind='corner', n_dim=2, n=200, seed=s + 8, cls='NautilusBound', n_networks=1, pool=2),
                  dict(kind='clusters2', n_dim=3, n=240, seed=s + 9, cls='NautilusBound', n_networks=0, periodic=[0]),
-                 dict(kind='faces', n_dim=3, n=240, seed=s + 10, cls='NautilusBound', n_networks=2, pool=3)]
+                 dict(kind='faces', n_dim=3, n=240, seed=s + 10, cls='NautilusBound', n_networks=2, pool=3),
+                 # without networks the neural bounds are bare ellipsoids while the outer union is built differently
+                 dict(kind='three', n_dim=2, n=240, seed=s + 12, cls='NautilusBound', n_networks=0),
+                 dict(kind='banana', n_dim=2, n=300, seed=s + 13, cls='NautilusBound', n_networks=0),
+                 dict(kind='onface', n_dim=3, n=200, seed=s + 14, cls='NautilusBound', n_networks=0, npm=6)]
         if tier == 'thorough':
             from .bounds_ops import POINTSETS
             for r in range(1, 9):
